@@ -301,6 +301,87 @@ theorem reclaimed {s : State} (h : Inv s) (ht : s.transit = []) (hfresh : s.fres
       | inr hf => rw [hfresh] at hf; cases hf
   exact ⟨hfr, (inv_processPendingFree h).freedFree i hfr, pendingFree_processPendingFree h⟩
 
+/-! ## every state an executor can reach
+
+`Reach` closes the initial state under every operation the executor and its worker perform on the
+heap and the roots — in any order, for any process, any program tables, any clock, any message or
+result arriving at any time: this is "every program and every scheduling down to one instruction per
+slice" on the model side. The premises are the side conditions listed at `InstrPre` / in the notes. -/
+
+inductive Reach : State → Prop where
+  | init : Reach State.init
+  /-- start of a `step`: reclamation -/
+  | reclaim {s} : Reach s → Reach (processPendingFree s)
+  /-- one instruction of the time slice of process `pid` (handler + `Err` arm) -/
+  | instr {s} (env : Env) (pid : Nat) (i : Instr) : Reach s → EnvOk env → InstrPre s pid i →
+      (∀ p v, (exec env s pid i).1.getProc pid = some p → p.result ≠ some (.ok v)) →
+      Reach (stepInstr env s pid i).1
+  /-- a `Select` instruction (first execution or any re-entry) -/
+  | select {s} (env : SelEnv) (pid : Nat) : Reach s → (∀ id r, env.run id = some r → BuiltinOk r) →
+      (∀ p v, (handleSelect env s pid).1.getProc pid = some p → p.result ≠ some (.ok v)) →
+      Reach (stepSelect env s pid).1
+  /-- end of the slice: frame auto-pop, completion, same-executor awaiters -/
+  | popFrame {s} (pid : Nat) : Reach s → Reach (popFrame s pid)
+  | finish {s} (pid : Nat) : Reach s → (∀ p v, s.getProc pid = some p → p.result ≠ some (.ok v)) →
+      Reach (finish s pid).1
+  | notifyAwaiters {s} (pid : Nat) : Reach s → Reach (notifyAwaiters s pid)
+  /-- commands handled by the worker between slices -/
+  | spawnProcess {s} (id : Nat) (fi : Option Nat) (caps : List Val) (arg : Val) (hd : List Bytes) (pers : Bool) :
+      Reach s → s.getProc id = none → Reach (spawnProcess s id fi caps arg hd pers).1
+  | notifySpawn {s} (id a b : Nat) : Reach s → Reach (notifySpawn s id a b)
+  | notifyMessage {s} (id : Nat) (m : Val) (hd : List Bytes) : Reach s → Reach (notifyMessage s id m hd).1
+  | notifyResult {s} (a b : Nat) (r : Val) (hd : List Bytes) : Reach s → Reach (notifyResult s a b r hd).1
+  | notifyEffect {s} (pid : Nat) (r : Option Val) (hd : List Bytes) : Reach s →
+      (∃ p, s.getProc pid = some p ∧ p.result = none) → Reach (notifyEffectCompletion s pid r hd).1
+  | resume {s} (id fi : Nat) : Reach s → Reach (resumeProcess s id fi).1
+  | compact {s} (pid : Nat) (keep : List Nat) : Reach s → Reach (compactLocals s pid keep).1
+  | orphans {s} (pid : Nat) (keep : List Nat) : Reach s → Reach (releaseOrphanLocals s pid keep).2
+  | materialize {s} (index : Nat) : Reach s → Reach (materialize s index).2
+
+/-- **the invariant holds, and nothing is in transit, in every reachable state** -/
+theorem reach_inv {s : State} (h : Reach s) : Inv s ∧ s.transit = [] := by
+  induction h with
+  | init => exact ⟨acct_init, rfl⟩
+  | reclaim _ ih => exact ⟨inv_processPendingFree ih.1, by rw [(ppf_frame ih.1).2.2.1.transit]; exact ih.2⟩
+  | instr env pid i _ he hp hr ih =>
+    have ⟨a, _, c⟩ := acct_step_stepInstr env he ih.1 pid i hp hr
+    exact ⟨a, c.trans ih.2⟩
+  | select env pid _ he hr ih =>
+    have g := good_handleSelect env he ih.1 pid
+    unfold stepSelect
+    cases hc : handleSelect env _ pid with
+    | mk s1 o =>
+      rw [hc] at g hr
+      cases o with
+      | fail =>
+        have g2 := good_setError g.inv pid hr
+        exact ⟨g2.inv, (g2.transit.trans g.transit).trans ih.2⟩
+      | ok => exact ⟨g.inv, g.transit.trans ih.2⟩
+      | act x => exact ⟨g.inv, g.transit.trans ih.2⟩
+      | wait => exact ⟨g.inv, g.transit.trans ih.2⟩
+  | popFrame pid _ ih => have g := good_popFrame ih.1 pid; exact ⟨g.inv, g.transit.trans ih.2⟩
+  | finish pid _ hr ih => have g := good_finish ih.1 pid hr; exact ⟨g.inv, g.transit.trans ih.2⟩
+  | notifyAwaiters pid _ ih => have g := good_notifyAwaiters ih.1 pid; exact ⟨g.inv, g.transit.trans ih.2⟩
+  | spawnProcess id fi caps arg hd pers _ hn ih =>
+    have g := good_spawnProcess ih.1 id fi caps arg hd pers hn; exact ⟨g.inv, g.transit.trans ih.2⟩
+  | notifySpawn id a b _ ih => have g := good_notifySpawn ih.1 id a b; exact ⟨g.inv, g.transit.trans ih.2⟩
+  | notifyMessage id m hd _ ih => have g := good_notifyMessage ih.1 id m hd; exact ⟨g.inv, g.transit.trans ih.2⟩
+  | notifyResult a b r hd _ ih => have g := good_notifyResult ih.1 a b r hd; exact ⟨g.inv, g.transit.trans ih.2⟩
+  | notifyEffect pid r hd _ hp ih =>
+    have g := good_notifyEffectCompletion ih.1 pid r hd hp; exact ⟨g.inv, g.transit.trans ih.2⟩
+  | resume id fi _ ih => have g := good_resumeProcess ih.1 id fi; exact ⟨g.inv, g.transit.trans ih.2⟩
+  | compact pid keep _ ih => have g := good_compactLocals ih.1 pid keep; exact ⟨g.inv, g.transit.trans ih.2⟩
+  | orphans pid keep _ ih => have g := goodT_releaseOrphanLocals ih.1 pid keep; exact ⟨g.inv, g.transit.trans ih.2⟩
+  | materialize index _ ih =>
+    exact ⟨inv_materialize ih.1 index, by rw [(rootsEq_materialize _ index).transit]; exact ih.2⟩
+
+/-- **C06 on the model, for every reachable state**: a slot is counted exactly when it is reachable;
+a freed slot is unreachable; the reuse pool is the set of freed slots -/
+theorem reachable_states_exact {s : State} (h : Reach s) (i : Nat) :
+    (0 < s.rc i ↔ i ∈ s.reachable) ∧ (s.isFreed i = true → i ∉ s.reachable) ∧ (i ∈ s.free ↔ s.isFreed i = true) := by
+  have ⟨hi, ht⟩ := reach_inv h
+  exact ⟨positive_iff_reachable hi ht i, fun hf => (no_use_after_free hi i hf).1, free_iff_freed hi i⟩
+
 /-! ## the theorems depend on the repairs: the code as it was breaks the property
 
 Each witness is a concrete state evaluated by the kernel (`decide`). -/
